@@ -1,6 +1,7 @@
 """C05.R6–R8 (also used by C04): agreement between the writers of an exported file (export_to_string,
 generate_imports, generate_decl, the derive's decl templates) and its reader/re-writer (merge),
 plus two rules on how merge() may treat existing declaration blocks."""
+import json
 import re
 
 from vlib.common import Result
@@ -319,6 +320,28 @@ def declaration_blank_line_rule(crate, prop, rule="C05.R13"):
             decl_pushes.append((blk, t, org))
     if not decl_pushes:
         r.fail(prop, "anchor-missing decl push", "generate_decl() does not append T::decl()", b.file(), b.line())
+    # the type's doc comment was made free of empty lines where it was produced (parse_docs): it is appended as it is.
+    # Any rewriting here (trimming lines, normalising line ends) happens *after* that guarantee was established.
+    REWRITE = r"str::<impl str>::(replace|replacen|trim|trim_end|trim_start|trim_matches|trim_end_matches|trim_start_matches|lines|split|to_lowercase|to_uppercase)$"
+    for blk, t in pushes:
+        org = origins(b, op_local(t["args"][1]), identity=M.IDENTITY_CALLS)
+        from_docs = any(o["kind"] == "const" and "DOCS" in json.dumps(o.get("c") or {}) for o in org) or \
+            any(o["kind"] in ("local", "other") for o in org) and False
+        calls = [o for o in org if o["kind"] == "call"]
+        if any(fn_matches(o["t"], r"TS::decl") for o in calls):
+            continue
+        rewr = [o for o in calls if fn_matches(o["t"], REWRITE)]
+        if rewr:
+            f, l = M.user_span(t["span"])
+            r.inst(fn=b.path, appended_text_from=sorted({M.callee(o["t"]) or "?" for o in calls}), docs_rewritten=True)
+            r.fail(prop, "docs-rewritten-when-written export::generate_decl",
+                   "the type's doc comment passes %s before it is appended: parse_docs made it free of empty lines, and e.g. trimming a whitespace-only line re-creates one, which a later merge takes for the end of the declaration" % sorted({(M.callee(o["t"]) or "?").split("::")[-1] for o in rewr}),
+                   f, l)
+    docs_ops = [t for blk, t in b.calls() if not b.is_cleanup(blk) and fn_matches(t, r"str::<impl str>::(lines|trim_end|trim|trim_start|split)$")]
+    if docs_ops and not any(f_.key.startswith("docs-rewritten") for f_ in r.findings):
+        f, l = M.user_span(docs_ops[0]["span"])
+        r.fail(prop, "docs-rewritten-when-written export::generate_decl",
+               "generate_decl() takes text apart with %s before appending it: the doc comment's blank-line guarantee from parse_docs no longer holds for what is written" % sorted({t["fn"]["path"].split("::")[-1] for t in docs_ops}), f, l)
     loop_test = any(fn_matches(t, r"str::<impl str>::contains$") and (op_const(t["args"][1]) or {}).get("str") == "\n\n" for blk, t in b.calls() if not b.is_cleanup(blk))
     for blk, t, org in decl_pushes:
         reps = [o for o in org if o["kind"] == "call" and fn_matches(o["t"], r"str::<impl str>::replace$") and (op_const(o["t"]["args"][1]) or {}).get("str") == "\n\n"]
